@@ -188,7 +188,16 @@ package tcp
 // The SACK list stays within its array; a first block is stored as given; afterwards every
 // stored block starts after rcvNxt (serial order) and every block other than a newly
 // inserted first one is non-empty in serial order.
+// Merging (serial-number order, exactly LessThan/LessThanEq's answer sets): a stored block that
+// touches the block being built is absorbed by it - after the step the built block starts no
+// later and ends no earlier than the absorbed one, wherever the two lie in the 32-bit space.
+//@ define slt(v, w) = (w - v >= 1 && w - v <= 0x80000000)
+//@ define slte(v, w) = (w - v <= 0x80000000)
+//@ define sackTouch(nb, b) = slte(nb.Start, b.End) && slte(b.Start, nb.End)
+//@ define sackWithin(b, nb) = !slt(b.Start, nb.Start) && !slt(nb.End, b.End)
+//@ define sackLive(b, nxt) = !(slte(b.End, b.Start) || slte(b.Start, nxt))
 //@ func UpdateSACKBlocks props C14 C02
+//@   loop 1 invariant implies(i >= 1 && sackLive(sack.Blocks[i - 1], rcvNxt) && sackTouch(newSB, sack.Blocks[i - 1]), sackWithin(sack.Blocks[i - 1], newSB))
 //@   requires sack != nil && 0 <= sack.NumBlocks && sack.NumBlocks <= MaxSACKBlocks
 //@   ensures 0 <= sack.NumBlocks && sack.NumBlocks <= MaxSACKBlocks
 //@   ensures implies(old(sack.NumBlocks) == 0, sack.NumBlocks == 1 && sack.Blocks[0].Start == segStart && sack.Blocks[0].End == segEnd)
